@@ -28,16 +28,19 @@ func Spec() *run.Spec {
 			"colour factors may be quantised by the writer: a colour channel matches when it is within 5.1e-4 of channel/65535 (Go image/color RGBA(), as handed to the writer)",
 			"absent JSON properties are equal to their glTF 2.0 / Khronos extension default (baseColorFactor 1, metallic/roughness 1, alphaMode OPAQUE, wrap REPEAT, texCoord 0, scale/strength 1, …)",
 			"sharing is demanded for the same pointer and for value copies made by the generator (shallow copies and deep copies of all core fields); deep copies that re-allocate pointers inside extension values are compared by content only",
-			"Float1 (scalar) vertex attributes, light names and spot-cone parameters are not demanded of the output (not in the property's content sentence); finite attribute values only",
+			"Float1 (scalar) vertex attributes, light names and spot-cone parameters are not demanded of the output (not in the property's content sentence)",
+			"≈5 % of the scenes carry NaN (some ±Inf) in one VEC2/VEC3/VEC4 float attribute of one mesh or in one GPU-instance translation/scale: all structural checks apply unchanged, content is compared bitwise with NaN≡NaN (any payload); declared min/max must equal the min/max over the elements without a NaN component (or over the non-NaN components per column), nothing is demanded of a column without any NaN-free element; when encoding/json refuses the document (±Inf in min/max, NaN through the unguarded VEC4 path) no file exists and the case is only counted",
 			"accessor misalignment explained by tightly packed views after a 1-/2-byte-component view of odd length is the known finding (class accessor-misaligned); any other misalignment has a different class",
 			"vertex attribute names are not checked against the glTF underscore rule for application-specific attributes (semantic rule beyond the property)",
 		},
 		MinNontrivial: map[string]int{"quick": 300, "thorough": 5000},
 		MinObserved: map[string]int64{
-			"variant_kinds":         90,
-			"index_component_types": 2,
-			"containers":            2,
-			"models_matched":        2000,
+			"variant_kinds":                        90,
+			"index_component_types":                2,
+			"containers":                           2,
+			"models_matched":                       2000,
+			"nonfinite_scenes_written_and_checked": 100,
+			"nonfinite_kinds":                      8,
 		},
 		Phases: []run.Phase{
 			{Name: "scenes", Cases: func(t string) int {
@@ -160,7 +163,11 @@ func runScene(c *run.Ctx, si *sceneInfo, kind string) run.Result {
 	if g.deepExt > 0 {
 		res.Count("materials_deep_copied_extension_internals", int64(g.deepExt))
 	}
+	for _, k := range si.nonFinite {
+		res.SetAdd("nonfinite_kinds", k)
+	}
 	kinds := append([]string(nil), g.kinds...)
+	kinds = append(kinds, si.nonFinite...)
 	sort.Strings(kinds)
 	res.Sig = fmt.Sprintf("w%d/%d|%s|%s|v%d|sm%d|sM%d|%s|trs%s|i%d|l%d|%s", written, len(si.scene.Models), keys(topo), keys(attrSets), bucket(maxVerts), sharedMesh, sharedMat,
 		strings.Join(kinds, ","), keys(trsMix), inst, len(si.scene.Lights), kind)
@@ -193,6 +200,12 @@ func runScene(c *run.Ctx, si *sceneInfo, kind string) run.Result {
 				res.Count("scenes_rejected_as_documented", 1)
 				continue
 			}
+			if si.jsonReject && strings.Contains(err.Error(), "unsupported value") {
+				// ±Inf in min/max or NaN through the unguarded VEC4 path: encoding/json refuses the document.
+				// No file is produced; recorded, not a verdict (reported to the coordinator as a finding).
+				res.Count("nonfinite_scenes_refused_by_json_encoder", 1)
+				continue
+			}
 			ck.viol("unexpected-write-error", site, "well-formed scene rejected: %v", err)
 			continue
 		}
@@ -214,6 +227,11 @@ func runScene(c *run.Ctx, si *sceneInfo, kind string) run.Result {
 			res.Violate(f.class, f.site, cont, f.detail, w)
 		}
 		res.Count("misaligned_accessors", int64(d.Misaligned))
+		res.Count("nonfinite_components_stored", int64(d.NonFiniteStored))
+		res.Count("minmax_columns_without_nan_free_element_(no_demand)", int64(d.MinMaxNoDemand))
+		if len(si.nonFinite) > 0 {
+			res.Count("nonfinite_scenes_written_and_checked", 1)
+		}
 		res.Count("minmax_checked", int64(d.MinMaxSeen))
 		res.Count("accessors_checked", int64(len(d.arr("accessors"))))
 		for e := range d.ExtInUse {
